@@ -91,12 +91,13 @@ def parsePairs (t : String) : List (Bytes × Bytes) :=
     | [k, v] => some (parseBytes k, parseBytes v)
     | _ => none
 
-/-- signature of D-MERGE-NOLOCK on a KV read of bucket `b`: every pair the implementation returned is
-either wanted or carries a value that was committed for that key at some time (a stale value written
-back by the unlocked Merge), and no wanted key is missing. -/
-def staleExplains (hist : Assoc (Assoc (List Bytes))) (b : Bytes) (impl want : List (Bytes × Bytes)) : Bool :=
-  impl.all (fun p => want.contains p || (((aget? hist b).bind (aget? · p.1)).getD []).contains p.2) &&
-  want.all (fun p => impl.any (·.1 == p.1))
+/-- signature of D-MERGE-NOLOCK on a KV read of bucket `b`: per key, what the implementation shows is the
+wanted pair, the pair the sequential model shows, or a value that was committed for that key earlier (a
+stale value written back by the unlocked Merge); a key may be missing only if the spec or the model does
+not have it either. -/
+def staleExplains (hist : Assoc (Assoc (List Bytes))) (b : Bytes) (impl want model : List (Bytes × Bytes)) : Bool :=
+  impl.all (fun p => want.contains p || model.contains p || (((aget? hist b).bind (aget? · p.1)).getD []).contains p.2) &&
+  want.all (fun p => impl.any (·.1 == p.1) || !model.any (·.1 == p.1))
 
 /-- result of a spec step: new state, expectation (`none`: the spec does not speak), a finding
 signature triggered by this line, and whether the line is only acceptable as an error because the
